@@ -201,6 +201,61 @@ Example C13_swissquote_statement_wf :
                 w_sq_row [70;111;114;101;120;45;66;101;108;97;115;116;117;110;103]%Z [45;57;49;56]%Z] = true.
 Proof. vm_compute. reflexivity. Qed.
 
+(* ---------------------------------------------------------------- from the command line to stdout *)
+(* With every account flag valid (so that it names an account; an empty flag gives a nil account,
+   findings/C13-nil-account-panic.md) the command succeeds on every well-formed statement and its
+   standard output is journal.Print of exactly the directives of the theorems above. *)
+Theorem C13_revolut2_end_to_end : forall aflag fflag acct feeacct rows,
+  account_flag aflag = AAcc acct -> account_flag fflag = AAcc feeacct ->
+  acct <> tbd_account -> acct <> feeacct -> forallb r2_wf_row rows = true ->
+  exists ts bals,
+    run_revolut2 aflag fflag (CRec r2_header :: map CRec rows) =
+      mkRun (print_directives (map DTxn ts ++ map (assertion_of acct) bals)) SOk /\
+    Forall2 (fun r t => books_b acct (r2_fact r) (r2_legs acct feeacct r) None t) (filter r2_is_booking rows) ts /\
+    map t_desc ts = map build_desc (map r2_text (filter r2_is_booking rows)) /\
+    NoDup (map (fun b => (bf_date b, bf_com b)) bals) /\
+    (forall d c v, In (mkBalFact d c v) bals <-> r2_closing (d, c) rows = Some v).
+Proof. exact revolut2_run. Qed.
+Print Assumptions C13_revolut2_end_to_end.
+
+Theorem C13_revolut_end_to_end : forall aflag acct cur header rows,
+  account_flag aflag = AAcc acct ->
+  acct <> tbd_account -> acct <> valuation_account_for acct ->
+  len_is header 9 = true -> field header 2 = s_paid_out ++ cur ++ [41%Z] ->
+  forallb is_alpha cur = true -> cur <> [] ->
+  forallb rv_wf_row rows = true ->
+  exists ts,
+    run_revolut aflag (CRec header :: map CRec rows) = mkRun (print_directives (rv_weave acct cur zero_date rows ts)) SOk /\
+    Forall2 (fun r t => books_b acct (rv_fact cur r) (rv_legs acct cur r) None t) rows ts /\
+    map t_desc ts = map build_desc (map rv_text rows).
+Proof. exact revolut_run. Qed.
+Print Assumptions C13_revolut_end_to_end.
+
+Theorem C13_wise_end_to_end : forall repaired aflag fflag tflag acct feeacct trading rows,
+  account_flag aflag = AAcc acct -> account_flag fflag = AAcc feeacct -> account_flag tflag = AAcc trading ->
+  acct <> tbd_account -> acct <> feeacct -> acct <> trading -> forallb ws_wf_row rows = true ->
+  let entries := flat_map (ws_entries repaired acct feeacct trading) rows in
+  exists ts,
+    run_wise repaired aflag fflag tflag (CRec ws_header :: map CRec rows) = mkRun (print_directives (map DTxn ts)) SOk /\
+    Forall2 (fun e t => books_b acct (en_fact e) (en_legs e) None t) entries ts /\
+    map t_desc ts = map build_desc (map en_text entries).
+Proof. exact wise_run. Qed.
+Print Assumptions C13_wise_end_to_end.
+
+Theorem C13_swissquote_end_to_end :
+  forall aflag dflag iflag wflag fflag tflag acct dividend interest tax fee trading header rows,
+  account_flag aflag = AAcc acct -> account_flag dflag = AAcc dividend -> account_flag iflag = AAcc interest ->
+  account_flag wflag = AAcc tax -> account_flag fflag = AAcc fee -> account_flag tflag = AAcc trading ->
+  acct <> tbd_account -> acct <> dividend -> acct <> interest -> acct <> tax -> acct <> fee -> acct <> trading ->
+  sqs_wf false rows = true ->
+  let entries := sqs_entries acct dividend interest tax fee trading None rows in
+  exists ts,
+    run_swissquote aflag dflag iflag wflag fflag tflag (CRec header :: map CRec rows) = mkRun (print_directives (map DTxn ts)) SOk /\
+    Forall2 (fun e t => books_b acct (en_fact (fst e)) (en_legs (fst e)) (snd e) t) entries ts /\
+    map t_desc ts = map build_desc (map (fun e => en_text (fst e)) entries).
+Proof. exact swissquote_run. Qed.
+Print Assumptions C13_swissquote_end_to_end.
+
 (* ---------------------------------------------------------------- us.interactivebrokers *)
 (* An activity statement is a sequence of records; ibs_kind says what a record is: a context
    record (Base Currency, Period), a booking row (Trades/Order of Stocks or Forex, Deposits &
